@@ -3,6 +3,7 @@
 package valid
 
 import (
+	"math"
 	"strings"
 	"time"
 )
@@ -390,4 +391,22 @@ func H_C02_required_arrays() {
 		o.S[0] = vInVal("S0")
 	}
 	vRun("C02 required on arrays", o)
+}
+
+// maps with float keys, NaN included (a NaN key can be iterated but not looked up): every entry is validated
+func H_C02_float_keys() {
+	a, b := vInVal("a"), vInVal("b")
+	nan := math.NaN()
+	switch vndChoice("shape", 3) {
+	case 0:
+		vRunUnordered("C02 map[float64]T with a NaN key", map[float64]vIn{nan: a, 1.5: b})
+	case 1:
+		vRunUnordered("C02 map[float64]*T with two NaN keys", map[float64]*vIn{nan: &a, math.NaN(): &b})
+	case 2:
+		vRunUnordered("C02 field map[float64]T with NaN and -0 keys", &vW13{M: map[float64]vIn{nan: a, math.Copysign(0, -1): b}})
+	}
+}
+
+type vW13 struct {
+	M map[float64]vIn `valid:"exist"`
 }
